@@ -629,10 +629,15 @@ class StrictProgress(object):
             if c in self.readers or (ev.get("cid") or "").rstrip().endswith(" const"):
                 return "read"
             return "maybe"
-        if any(a.get("v") in cursors for a in ev.get("args", [])) and not c.startswith("std::"):
+        handed = any(a.get("v") in cursors for a in ev.get("args", [])) and not c.startswith("std::")
+        captured = False
+        if not handed and c.startswith("lambda@"):
+            # a local lambda that captured the cursor by reference uses it under the same name
+            captured = any(g.is_lambda and self._uses(g, cursors) for g in self.prog.resolve_call(ev))
+        if handed or captured:
             gs = [g for g in self.prog.resolve_call(ev) if g.blocks]
             if gs and depth < 5:
-                kinds = {self.summary(g, depth + 1) for g in gs}
+                kinds = {self.summary(g, depth + 1, cursors if captured else ()) for g in gs}
                 if kinds == {"definite"}:
                     return "definite"
                 if kinds <= {"definite", "if-true"}:
@@ -640,11 +645,18 @@ class StrictProgress(object):
             return "maybe"
         return None
 
-    def summary(self, g, depth=0):
+    @staticmethod
+    def _uses(g, names):
+        for e in g.events():
+            if (e.get("recv") or {}).get("root") in names or any(a.get("v") in names or a.get("root") in names for a in e.get("args", []) or []):
+                return True
+        return False
+
+    def summary(self, g, depth=0, captured=()):
         if g.id in self._sum:
             return self._sum[g.id]
         self._sum[g.id] = "maybe"         # recursion: conservative
-        cs = cursors_of(g)
+        cs = cursors_of(g) | set(captured)
 
         def must(ev):
             return self.cursor_call(ev, cs, depth) == "definite"
@@ -658,15 +670,25 @@ class StrictProgress(object):
         self._sum[g.id] = r
         return r
 
+    ZERO_OK = ("Pistache::match_until", "Pistache::skip_whitespaces")   # may consume nothing, by their contract
+
     def check(self, func, hdr, body):
-        """list of (block, line) witnesses where a zero-progress second iteration starts; empty = strict progress proved"""
+        """(definite, inconclusive): witnesses (block, line) where a second iteration starts without definite progress.
+        definite: every branch and call on the witness path is one this analysis models (comparisons of the current byte with
+        character constants, eof() tests, results of the consume helpers, match_until / skip_whitespaces); inconclusive: the path
+        passes a branch on something else or a helper with unknown effect -- it may be infeasible, so it is not reported as a violation.
+        Both empty = strict progress proved."""
         cursors = cursors_of(func)
         CURRENT = self.P + "current"
-        stuck = []
+        definite, inconclusive = [], []
         cur_re = re.compile(r"^\(?((\w+) = )?(%s)\.current\(\)\)?$" % "|".join(map(re.escape, cursors)))
+        eof_re = re.compile(r"^(%s)\.eof\(\)$" % "|".join(map(re.escape, cursors)))
+
+        def hit(st, blk, line):
+            (inconclusive if st[4] else definite).append((blk, line))
 
         def step(st, ev):
-            poss, aliases, wrapped, pend = st
+            poss, aliases, wrapped, pend, unk = st
             if ev["k"] in ("return", "throw"):
                 return None
             kind = self.cursor_call(ev, cursors)
@@ -674,49 +696,56 @@ class StrictProgress(object):
                 return None
             if kind in ("maybe", "if-true"):
                 if wrapped:
-                    stuck.append((ev.block, ev.get("l")))
+                    hit(st, ev.block, ev.get("l"))
                     return None
-                return (None, frozenset(), wrapped, (ev.get("t") or "") if kind == "if-true" else None)
+                if kind == "maybe" and (ev.get("callee") or "") not in self.ZERO_OK:
+                    unk = True
+                return (None, frozenset(), wrapped, (ev.get("t") or "") if kind == "if-true" else None, unk)
             if ev["k"] == "call" and (ev.get("callee") or "").endswith("Step::raise"):
                 return None
             if ev["k"] == "decl" and ev.get("var"):
                 if ev.get("icall") == CURRENT:
-                    return (poss, aliases | {ev["var"]}, wrapped, pend)
+                    return (poss, aliases | {ev["var"]}, wrapped, pend, unk)
                 if ev["var"] in aliases:
-                    return (poss, aliases - {ev["var"]}, wrapped, pend)
+                    return (poss, aliases - {ev["var"]}, wrapped, pend, unk)
             if ev["k"] == "assign":
                 v = (ev.get("lhs") or {}).get("v")
                 t = ev.get("t") or ""
                 rhs = t.split("=", 1)[1].strip() if "=" in t else ""
                 if v and ev.get("op") == "=" and cur_re.match(rhs):
-                    return (poss, aliases | {v}, wrapped, pend)
+                    return (poss, aliases | {v}, wrapped, pend, unk)
                 if v in aliases:
-                    return (poss, aliases - {v}, wrapped, pend)
+                    return (poss, aliases - {v}, wrapped, pend, unk)
             return st
 
         def edge(st, blk, k, succ):
-            poss, aliases, wrapped, pend = st
+            poss, aliases, wrapped, pend, unk = st
             t = blk.term or {}
-            if len(blk.succs) == 2 and t.get("k") in ("if", "while", "for", "do", "land", "lor", "cond"):
+            if len(blk.succs) == 2 and None not in blk.succs and t.get("k") in ("if", "while", "for", "do", "land", "lor", "cond"):
                 truth = (k == 0) != bool(t.get("neg"))       # truth value of the core expression on this edge
-                core = (t.get("core") or {}).get("t") or ""
-                if pend is not None and truth and core == pend:
-                    return None                              # `if (match_x(.., cursor))` taken: input was consumed
+                core = ((t.get("core") or {}).get("t") or "").strip()
+                modelled = False
+                if pend is not None and core == pend:
+                    modelled = True
+                    if truth:
+                        return None                          # `if (match_x(.., cursor))` taken: input was consumed
                 lhs = t.get("lhs") or {}
                 rc = t.get("rconst")
-                if t.get("cmp") in ("==", "!=") and isinstance(rc, str) and rc.startswith("c:"):
-                    if lhs.get("v") in aliases or cur_re.match((lhs.get("t") or "").strip()):
-                        ch = chr(int(rc[2:]))
-                        equal = truth if t["cmp"] == "==" else not truth
-                        if equal:
-                            if poss is not None and ch not in poss:
-                                return None
-                            poss = frozenset([ch])
-                        elif poss is not None:
-                            poss = poss - {ch}
-                            if not poss:
-                                return None
-                if re.match(r"^(%s)\.eof\(\)$" % "|".join(map(re.escape, cursors)), core.strip()):
+                if t.get("cmp") in ("==", "!=") and isinstance(rc, str) and rc.startswith("c:") and \
+                        (lhs.get("v") in aliases or cur_re.match((lhs.get("t") or "").strip())):
+                    modelled = True
+                    ch = chr(int(rc[2:]))
+                    equal = truth if t["cmp"] == "==" else not truth
+                    if equal:
+                        if poss is not None and ch not in poss:
+                            return None
+                        poss = frozenset([ch])
+                    elif poss is not None:
+                        poss = poss - {ch}
+                        if not poss:
+                            return None
+                if eof_re.match(core):
+                    modelled = True
                     # end of input is one more "value" the position under the cursor can have
                     if truth:
                         if poss is not None and "<EOF>" not in poss:
@@ -726,24 +755,31 @@ class StrictProgress(object):
                         poss = poss - {"<EOF>"}
                         if not poss:
                             return None
-                if truth and any(core.startswith(m.rsplit("::", 1)[1] + "(") for m in self.matchers):
-                    # post-condition of match_until(<chars>, cursor) == true: the byte under the cursor is one of <chars>
-                    arg = core[core.index("(") + 1:]
-                    arg = arg[:arg.rindex(",")] if "," in arg else arg
-                    cs = _chars_in(arg)
-                    if cs:
-                        poss = frozenset(cs)
+                if any(core.startswith(m.rsplit("::", 1)[1] + "(") for m in self.matchers):
+                    modelled = True
+                    if truth:
+                        # post-condition of match_until(<chars>, cursor) == true: the byte under the cursor is one of <chars>
+                        arg = core[core.index("(") + 1:]
+                        arg = arg[:arg.rindex(",")] if "," in arg else arg
+                        cs = _chars_in(arg)
+                        if cs:
+                            poss = frozenset(cs)
+                if not modelled:
+                    unk = True
+            elif len([x for x in blk.succs if x is not None]) > 1:
+                unk = True                                   # switch and the like
             if succ not in body:
                 return None
             if succ == hdr:
                 if wrapped:
-                    stuck.append((blk.id, (blk.term or {}).get("l")))
+                    hit((poss, aliases, wrapped, None, unk), blk.id, (blk.term or {}).get("l"))
                     return None
                 wrapped = True
-            return (poss, aliases, wrapped, None)
+            return (poss, aliases, wrapped, None, unk)
 
-        cfg.run_automaton(func, (None, frozenset(), False, None), step, edge=edge, start=hdr)
-        return sorted(set(stuck), key=lambda x: (x[1] or 0, x[0]))
+        cfg.run_automaton(func, (None, frozenset(), False, None, False), step, edge=edge, start=hdr)
+        key = lambda x: (x[1] or 0, x[0])
+        return sorted(set(definite), key=key), sorted(set(inconclusive), key=key)
 
 
 # ---------- comparisons, normalised on an edge ----------
@@ -887,3 +923,61 @@ def guard_dominates(prog, ev, guard_edges, depth=3, _stack=()):
     if not sites:
         return False
     return all(guard_dominates(prog, s, guard_edges, depth - 1, _stack + (f.id,)) for s in sites)
+
+
+# ---------- edges that know the result of a call ----------
+
+def _result_vars(f, is_callee):
+    """locals that hold the result of the call (declared from it or assigned it once), never reassigned otherwise"""
+    out = set()
+    for d in f.events("decl"):
+        if d.get("var") and d.get("icall") and is_callee(d["icall"]):
+            out.add(d["var"])
+    for v in list(out):
+        if [a for a in f.events("assign") if (a["lhs"].get("v") == v)]:
+            out.discard(v)
+    return out
+
+
+def result_edges(f, callee, truth):
+    """[(block, k)]: edges of two-way terminators on which the bool result of `callee(...)` is known to be `truth`:
+    `if (call())`, `if (!call())`, or the same through a local initialised from the call."""
+    is_c = (lambda c: strip_tmpl(c) == callee or c == callee)
+    rv = _result_vars(f, is_c)
+    out = []
+    for b in f.blocks.values():
+        t = b.term
+        if not t or len(b.succs) != 2 or t.get("cmp"):
+            continue
+        core = t.get("core") or {}
+        leaf = t.get("leafrefs") or t.get("refs") or []
+        direct = any(r.startswith("c:") and is_c(r[2:]) for r in leaf) and not [r for r in leaf if r.startswith("c:") and not is_c(r[2:]) and "operator" not in r]
+        via = core.get("v") in rv and core.get("v") is not None
+        if not (direct or via):
+            continue
+        for k in (0, 1):
+            if b.succs[k] is None:
+                continue
+            if ((k == 0) != bool(t.get("neg"))) == truth:
+                out.append((b.id, k))
+    return out
+
+
+def value_edges(f, callee, const, rels=("==",)):
+    """[(block, k)]: edges on which `callee(...) <rel> const` holds (rel in rels), the call being compared directly or through a local"""
+    is_c = (lambda c: strip_tmpl(c) == callee or c == callee)
+    rv = _result_vars(f, is_c)
+    out = []
+    for b in f.blocks.values():
+        t = b.term
+        if not t or len(b.succs) != 2 or t.get("rconst") != const:
+            continue
+        lhs = t.get("lhs") or {}
+        leaf = t.get("leafrefs") or t.get("refs") or []
+        if not (lhs.get("v") in rv or any(r.startswith("c:") and is_c(r[2:]) for r in leaf)):
+            continue
+        for k in (0, 1):
+            r = rel_on_edge(t, k)
+            if b.succs[k] is not None and r is not None and r[1] in rels:
+                out.append((b.id, k))
+    return out
